@@ -386,6 +386,14 @@ Theorem c17_generated_arithmetic_covers_sites : forall p o m,
   g_side_vert_offset_norm p m = ar_dir g_arith p m.
 Proof. exact g_arith_covers_sites. Qed.
 
+(** ... and the [transform D g_arith] of c17_property is, item by item, the specification of the property text: a position
+    is the original rotated by the instance matrix and then offset by its origin ([place]), a direction is rotated ([vrot]),
+    a texture axis is placed so that the texture moves with the geometry ([uvplace], c17_texture_moves_with_geometry), an
+    orientation is composed with the instance rotation ([mmul]); placement-independent data is untouched. *)
+Theorem c17_property_transform_is_the_specification : forall D p (r : added D),
+  transform D g_arith p r = transform D spec_arith p r.
+Proof. exact transform_g_is_spec. Qed.
+
 (** The derivations behind c17_property, for any arithmetic / census / skeleton: a statement that respects the census
     keeps the template's value and the separation (C09's census theorem + frame theorem, one statement at a time) ... *)
 Theorem c17_disciplined_statement_keeps_template : forall all copied, copied_classes_fresh all copied = true ->
